@@ -19,9 +19,12 @@ def run_stream(st, known_hashes, tier):
     """Returns dict with counts, failing cases, logs."""
     cases = st["cases"]
     t0 = time.time()
-    impl = lib.run_impl(st["impl_stream"], [st.get("impl_input", lambda c: c)(c) for c in cases],
-                        per_case_timeout=st.get("timeout", 30), hashseed=st.get("hashseed", "0"),
-                        extra_env=st.get("env"))
+    if "run" in st:      # streams that need several runs of the implementation (different hash seeds, histories)
+        impl = st["run"](cases)
+    else:
+        impl = lib.run_impl(st["impl_stream"], [st.get("impl_input", lambda c: c)(c) for c in cases],
+                            per_case_timeout=st.get("timeout", 30), hashseed=st.get("hashseed", "0"),
+                            extra_env=st.get("env"))
     t_impl = time.time() - t0
     pairs = list(zip(cases, impl))
     shards = lib.shard(pairs, st.get("shard_size", 60))
@@ -201,6 +204,11 @@ def main(argv):
         "wall_s": round(time.time() - t0, 1),
         "violations": len(violations) + (1 if (problems and not violations) else 0),
     }
+    if mod.LEVEL == "translation_validation":
+        ev["coverage"]["programs"] = max(evaluations, 1)
+        ev["coverage"]["disagreements_checked"] = sum(len(r["tie_bad"]) + len(r["spec_bad"]) for _, r in stream_results)
+    if mod.LEVEL == "other":
+        ev["coverage"]["explanation"] = getattr(mod, "EXPLANATION", mod.RULE)
     lib.write_evidence(prop, ev)
     for l in out_lines:
         print(l)
